@@ -304,13 +304,41 @@ def request_table():
     return T
 
 
+def size_request_table():
+    """requests whose reply length depends on counts that differ between the request's fields (FC 23 read count vs
+    registers written) or sits at a protocol limit; used by the `sizes` block only (not in the rotation)"""
+    from pymodbus import bit_read_message as br, bit_write_message as bw, register_read_message as rr
+    from pymodbus import register_write_message as rw
+    T = []
+    for rc in (1, 4, 125):
+        for wc in (1, 2, 121):
+            T.append(("rw_r%d_w%d" % (rc, wc), (lambda rc=rc, wc=wc: rr.ReadWriteMultipleRegistersRequest(
+                read_address=3, read_count=rc, write_address=300, write_registers=[(7 * i + 1) & 0xffff for i in range(wc)]))))
+    T += [
+        ("read_holding_125", lambda: rr.ReadHoldingRegistersRequest(0, 125)),
+        ("read_input_125", lambda: rr.ReadInputRegistersRequest(1, 125)),
+        ("read_coils_2000", lambda: br.ReadCoilsRequest(0, 2000)),
+        ("read_discrete_9", lambda: br.ReadDiscreteInputsRequest(5, 9)),
+        ("write_coils_1968", lambda: bw.WriteMultipleCoilsRequest(0, [i % 3 == 0 for i in range(1968)])),
+        ("write_coils_1", lambda: bw.WriteMultipleCoilsRequest(7, [True])),
+        ("write_registers_123", lambda: rw.WriteMultipleRegistersRequest(0, [i for i in range(123)])),
+        ("write_registers_1", lambda: rw.WriteMultipleRegistersRequest(9, [0xffff])),
+        ("mask_write_max", lambda: rw.MaskWriteRegisterRequest(0x1ff, 0xffff, 0x0000)),
+    ]
+    return T
+
+
+def all_requests():
+    return dict(request_table() + size_request_table())
+
+
 def server_context():
     from pymodbus.datastore import ModbusSequentialDataBlock, ModbusSlaveContext
     return ModbusSlaveContext(
-        di=ModbusSequentialDataBlock(0, [i % 3 == 0 for i in range(64)]),
-        co=ModbusSequentialDataBlock(0, [i % 2 == 0 for i in range(64)]),
-        hr=ModbusSequentialDataBlock(0, [0x100 + i for i in range(64)]),
-        ir=ModbusSequentialDataBlock(0, [0x200 + i for i in range(64)]), zero_mode=True)
+        di=ModbusSequentialDataBlock(0, [i % 3 == 0 for i in range(2100)]),
+        co=ModbusSequentialDataBlock(0, [i % 2 == 0 for i in range(2100)]),
+        hr=ModbusSequentialDataBlock(0, [0x100 + i for i in range(2100)]),
+        ir=ModbusSequentialDataBlock(0, [0x200 + i for i in range(2100)]), zero_mode=True)
 
 
 class RawMsg:
@@ -738,7 +766,7 @@ def cfg_term(kind, retries, roe, roi, bcast=False):
 def run_case(spec):
     """spec: dict(kind, retries, roe, roi, tid0, bcast, txs=[dict(req=<name>, unit, script=[(beh, params)…], refuse)])
     -> (coq term, observations)"""
-    T = dict(request_table())
+    T = all_requests()
     rig = Rig(spec["kind"], retries=spec.get("retries"), retry_on_empty=spec.get("roe", False),
               retry_on_invalid=spec.get("roi", False), broadcast_enable=spec.get("bcast", False),
               tid0=spec.get("tid0", 0))
